@@ -138,6 +138,8 @@ def fmtDraw (gs : List Group) : String :=
 def fmtErr : Err → String
   | .attribute => "err Attribute"
   | .notImplemented => "err NotImplemented"
+  | .zeroDivision => "err ZeroDivision"
+  | .value => "err Value"
 
 def fmtDict (d : Dict) : String :=
   ",".intercalate ((d.mergeSort fun a b => strLe a.1 b.1).map fun kv => s!"{kv.1}={kv.2}")
@@ -385,9 +387,13 @@ def stepLine0 (st : St) (ws : List String) : St × String :=
         else match drawSpaceKw sp st.heap st.portrayal kw with
           | .ok d => (st, fmtDrawKw d)
           | .error .attribute => (st, "err Attribute")
+          | .error (.raised e) => (st, fmtErr e)
           | .error (.conflict k) => (st, s!"err Value conflict {k}")
   | ["sdefault"] =>
     withSpace st fun sp =>
+      match drawRaises sp with
+      | some e => (st, fmtErr e)     -- the size is observed through `draw_space`
+      | none =>
       if sp.placed.isEmpty then (st, "ok none")
       else match defaultSize sp with
         | .exact f => (st, s!"ok {fmtFrac f}")
